@@ -105,6 +105,29 @@ def norm_outcome(p, effects=None, outcome_norm=None):
 
 
 def default_effects(p):
+    """Ordered effect list; a run of consecutive stores to pairwise distinct
+    locations is order-normalised (independent stores commute)."""
+    raw = _raw_effects(p)
+    out, run_ = [], []
+
+    def flush():
+        targets = [x.split(" = ")[0] for x in run_]
+        if len(set(targets)) == len(targets):
+            out.extend(sorted(run_))
+        else:
+            out.extend(run_)
+        del run_[:]
+    for x in raw:
+        if x.startswith("store "):
+            run_.append(x)
+        else:
+            flush()
+            out.append(x)
+    flush()
+    return out
+
+
+def _raw_effects(p):
     out = []
     for e in p.effects:
         if e[0] == "call":
